@@ -113,6 +113,35 @@ class DecideStream(Stream):
                 'print(guardlib.decide_impl(c), guardlib.match_vector(c)[0])' % __import__('json').dumps(c))
 
 
+from .c11 import CachedGuardStream as _C11Stream  # noqa: E402
+
+
+class StoreChangesStream(_C11Stream):
+    """"for every stored policy set": the policy set a guard decides over is the one stored NOW.  A guard created with the
+    decision cache is asked, the store is changed through the storage returned alongside it, the guard is asked again
+    (the caller keeps only the guard and that storage)"""
+    name = 'decisions_follow_the_store'
+    rule = ('histories of decisions interleaved with add / update / delete through create_cached_guard(...)[:2] (the '
+            'returned cache handle is dropped) over Memory / SQLite / Redis: every answer is compared with the model\'s '
+            'decision over the store as it is at that moment. non-trivial as for C11')
+
+    def corpus(self):
+        return []
+
+    def generate(self, rng, tier):
+        n = 60 if tier == 'quick' else 800
+        k = 0
+        for c in super().generate(rng, tier):
+            if c.get('custom'):
+                continue
+            c['drop_handle'] = True
+            c['reuse'] = False
+            yield c
+            k += 1
+            if k >= n:
+                return
+
+
 TRUSTED = [
     'Coq 8.16.1 kernel + vm_compute (no native_compute)',
     'hand-written models Model/Guard.v, Model/Checkers.v, Model/Rules.v, Model/Policy.v, Model/Parser.v, '
@@ -126,8 +155,9 @@ ASSUME = ['effects / values with user-defined __eq__ are outside the universe']
 
 
 def main(argv):
-    return run_check('C01', [DecideStream()], argv, trusted_base=TRUSTED, assumptions=ASSUME,
-                     translated=('guard', 'checker', 'parser', 'policy', 'on_generated', 'pin_rules', 'pin_util'))
+    return run_check('C01', [DecideStream(), StoreChangesStream()], argv, trusted_base=TRUSTED, assumptions=ASSUME,
+                     translated=('guard', 'checker', 'parser', 'policy', 'on_generated', 'rules', 'subject', 'observable', 'memory',
+                                 'pin_rules', 'pin_util'))
 
 
 if __name__ == '__main__':
